@@ -93,4 +93,39 @@ drawn by the fifth round, `lir` = temporaries of `compile_mir_to_lir`; `lastSync
 def pipeline (rounds : List (Nat × Nat)) (last lir : Nat) (lastSync : Bool) : List Phase :=
   rounds.flatMap (fun r => [.par r.1 true, .seq r.2]) ++ [.par last lastSync, .seq lir]
 
+/-! ## Why the position-based model is right: atomicity of `fetch_add`
+
+`alloc_temp_str` is `self.counter.fetch_add(1, Ordering::Relaxed)` — ONE atomic read-modify-write
+(`samlang-heap/src/lib.rs:427`).  Small-step machine: a worker step is either the atomic `rmw`, or —
+for a counter implemented as a separate `load` followed by `store(v + 1)` — one of the two halves.
+`regs` holds the value a worker has loaded and not yet stored. -/
+
+inductive CStep where
+  | rmw (w : Nat)
+  | load (w : Nat)
+  | store (w : Nat)
+  deriving Repr, DecidableEq
+
+structure CState where
+  ctr : Nat
+  regs : List (Nat × Nat)
+  issued : List (Nat × Nat)        -- (worker, number handed to it), in issue order
+  deriving Repr, DecidableEq
+
+def regOf (regs : List (Nat × Nat)) (w : Nat) : Option Nat :=
+  match regs with
+  | [] => none
+  | (w', v) :: rest => if w = w' then some v else regOf rest w
+
+def cstep (s : CState) : CStep → CState
+  | .rmw w => { s with ctr := s.ctr + 1, issued := s.issued ++ [(w, s.ctr)] }
+  | .load w => { s with regs := (w, s.ctr) :: s.regs }
+  | .store w =>
+    match regOf s.regs w with
+    | some v => { ctr := v + 1, regs := s.regs.filter (·.1 != w), issued := s.issued ++ [(w, v)] }
+    | none => s
+
+def crun (start : Nat) (steps : List CStep) : CState :=
+  steps.foldl cstep { ctr := start, regs := [], issued := [] }
+
 end SamVerif.TempCounter
